@@ -1,6 +1,6 @@
 """C20 — tag values set through the API are written and read back unchanged.
 
-Two kinds of cases:
+Three kinds of cases:
 
  single assignment   (the cases of c20_oracle.py, unchanged: one value, one tag of a fresh line, declared datatype or none,
                      set / attribute, 3 records x levels 0-3; see the docstring there for the two halves of the verdict and
@@ -29,6 +29,26 @@ Two kinds of cases:
                      delete() ends the walk without verdict); a declared datatype (set_datatype) surviving delete();
                      set(tag, None); edits of J lists; NaN elements; whether the line shares the list object at all.
 
+ values of other classes   (`"obj"` in the case; this file; every 8th random case + ~250 fixed ones) one assignment as in the
+                     first kind (declared datatype or none, declared before or after, set / attribute, 3 records x levels 0-3),
+                     of a value that is no instance of the plain builtin classes:
+                     (a) `"t": "sub"`: an instance of a SUBCLASS of a supported builtin -- collections.OrderedDict, defaultdict,
+                       Counter, a user subclass of dict / list / int / float / str, an enum.IntEnum member.  It IS a dict /
+                       list / integer / float / string, so the verdict is the one of the plain value: as a new tag it gets the
+                       documented default of the builtin (J; J or B for a list, by its elements; i; f; Z), is written in that
+                       syntax and read back equal (`==`); under a declared datatype (J / B / i / f / Z) likewise; a list
+                       subclass with mixed or out-of-range numbers under B is reported.  Labels `<dt>.sub-<class>`.
+                     (b) `"t": "jbad"`: a list / dict for a J tag (declared J, or new: the default of a dict or of a list that
+                       is not all-int / all-float is J) with, somewhere inside (first level, in a dict, three levels deep,
+                       twice), an element that JSON has no form for: bytes, bytearray, gfapy.ByteArray, set, frozenset,
+                       decimal.Decimal, fractions.Fraction, complex, gfapy.Placeholder, object(), range, datetime.date, a
+                       class, Ellipsis, a gfapy.Line.  No JSON text reads back as such a value, so the J datatype cannot
+                       represent it: the reporting half applies (refused by set, or reported by validate() at every level
+                       and at level >= 2 not written by field_to_s / str).  Labels `J.json-with-<class>`.
+                     Not judged here: tuples and NumericArrays inside a JSON value (written as JSON lists), containers that are
+                     no dict / list subclasses (UserDict, ChainMap, deque, tuple), IntFlag, subclasses that override
+                     __str__ / __repr__ / __eq__, circular structures.
+
 Failure signatures of sequences carry the label `seq.<datatype>.<kind>.<situation>` (situation: new / recreated / overwrite /
 edit-<method>), e.g. `wrong-datatype[seq.i.int.recreated]`, `subtype-not-smallest[seq.B.ints.edit-pop]`.  Verdicts on a tag that
 was created again after a delete() and is then overwritten or edited (situation `...-recreated`) have the signature prefix
@@ -39,6 +59,7 @@ _set_existing_field), so that until somebody reads the datatype a later assignme
 get_datatype("xx") in between: datatype i, the string is reported).
 """
 import json, math, struct
+import collections, datetime, decimal, enum, fractions
 from harness import lib
 from harness.props import _misc as M
 from harness.props.c20_oracle import *  # noqa
@@ -51,9 +72,15 @@ RULE = (getattr(_o, "RULE", "") +
         "one line (tag new, written in the parsed text, or deleted and created again with a value of another kind: all "
         "ordered pairs of i, f, Z, J, B-int, B-float, H), arrays edited around the subtype boundaries / to mixed / empty "
         "contents after the line was written or validated. Non-trivial: at least one state of the walk is judged "
-        "(representable or not).")
+        "(representable or not). Values of other classes (every 8th random case + ~250 fixed ones): instances of subclasses "
+        "of the supported builtins (OrderedDict, defaultdict, Counter, user subclasses of dict/list/int/float/str, IntEnum "
+        "members) as new tags (default datatype of the builtin: J, B, i, f, Z) and under the natural declared datatypes, "
+        "round trip or report exactly as for the plain value; lists/dicts holding an element JSON cannot represent (bytes, "
+        "ByteArray, set, Decimal, Fraction, complex, Placeholder, object, range, date, class, Ellipsis, Line; at the first "
+        "level, in a dict, nested, twice) as new or declared J tags: reporting half.")
 
-SEQ_EVERY = 4          # random case i is a sequence when i % SEQ_EVERY == SEQ_EVERY - 1 (the others are exactly those of c20_oracle)
+SEQ_EVERY = 4          # random case i is a sequence when i % SEQ_EVERY == SEQ_EVERY - 1
+OBJ_EVERY = 8          # random case i holds a value of another class when i % OBJ_EVERY == 1 (the others are exactly those of c20_oracle)
 
 
 # ---------------------------------------------------------------------------------------------------- generators
@@ -214,7 +241,242 @@ def gen_seq(rng):
 def gen_case(rng, tier, i):
     if i % SEQ_EVERY == SEQ_EVERY - 1:
         return gen_seq(rng)
+    if i % OBJ_EVERY == 1:
+        return gen_obj(rng)
     return _o.gen_case(rng, tier, i)
+
+
+# ---------------------------------------------------------------------------------------------------- values of other classes
+class DictSub(dict):
+    pass
+
+
+class ListSub(list):
+    pass
+
+
+class IntSub(int):
+    pass
+
+
+class FloatSub(float):
+    pass
+
+
+class StrSub(str):
+    pass
+
+
+# class name -> (kind of the builtin it derives from, natural declared datatypes)
+SUBCLASSES = {"OrderedDict": "dict", "defaultdict": "dict", "Counter": "dict", "DictSub": "dict", "ListSub": "list",
+              "IntSub": "int", "IntEnum": "int", "FloatSub": "float", "StrSub": "str"}
+SUB_DECLS = {"dict": ["J"], "list": ["J", "B"], "int": ["i", "f"], "float": ["f"], "str": ["Z"]}
+# elements that JSON cannot represent: kind -> JSON-able argument
+JBAD = {"bytes": "6162", "bytearray": "00ff", "ByteArray": "0a0b0c", "set": [2], "frozenset": ["a"], "Decimal": "1.5", "Fraction": [1, 3],
+        "complex": [0, 1], "Placeholder": None, "object": None, "range": 3, "date": [2020, 1, 2], "type": None, "Ellipsis": None,
+        "Line": "S\t2\t*"}
+# the place(s) of the element(s): "$" is replaced by the element
+JBAD_SHAPES = [[1, "$"], ["$"], {"k": "$"}, {"a": {"b": ["s", "$"]}}, [["$"], "x"], {"k": [1, 2], "m": "$"}, ["$", "$"], {"md5": "$", "n": 1.5}]
+
+
+def sub_base_spec(spec):
+    """the spec of the plain value (for the predicates of c20_oracle)"""
+    return {"t": {"dict": "json", "list": "json"}.get(SUBCLASSES[spec["cls"]], SUBCLASSES[spec["cls"]]), "v": spec["v"]}
+
+
+def build_sub(spec):
+    cls, v = spec["cls"], spec["v"]
+    if SUBCLASSES[cls] in ("dict", "list"):
+        v = json.loads(json.dumps(v))
+    if cls == "OrderedDict":
+        return collections.OrderedDict(v)
+    if cls == "defaultdict":
+        return collections.defaultdict(list, v)
+    if cls == "Counter":
+        return collections.Counter(v)
+    if cls == "DictSub":
+        return DictSub(v)
+    if cls == "ListSub":
+        return ListSub(v)
+    if cls == "IntSub":
+        return IntSub(int(v))
+    if cls == "IntEnum":
+        return enum.IntEnum("Colour", {"M": int(v)})["M"]
+    if cls == "FloatSub":
+        return FloatSub(float(v))
+    if cls == "StrSub":
+        return StrSub(v)
+    raise AssertionError(cls)
+
+
+def build_bad_element(kind, arg):
+    gfapy = lib.import_gfapy()
+    if kind == "bytes":
+        return bytes.fromhex(arg)
+    if kind == "bytearray":
+        return bytearray(bytes.fromhex(arg))
+    if kind == "ByteArray":
+        return gfapy.ByteArray(bytes.fromhex(arg))
+    if kind == "set":
+        return set(arg)
+    if kind == "frozenset":
+        return frozenset(arg)
+    if kind == "Decimal":
+        return decimal.Decimal(arg)
+    if kind == "Fraction":
+        return fractions.Fraction(arg[0], arg[1])
+    if kind == "complex":
+        return complex(arg[0], arg[1])
+    if kind == "Placeholder":
+        return gfapy.Placeholder()
+    if kind == "object":
+        return object()
+    if kind == "range":
+        return range(arg)
+    if kind == "date":
+        return datetime.date(*arg)
+    if kind == "type":
+        return int
+    if kind == "Ellipsis":
+        return Ellipsis
+    if kind == "Line":
+        return gfapy.Line(arg)
+    raise AssertionError(kind)
+
+
+def build_jbad(spec):
+    def fill(x):
+        if x == "$":
+            return build_bad_element(spec["elem"], spec["arg"])
+        if isinstance(x, list):
+            return [fill(y) for y in x]
+        if isinstance(x, dict):
+            return {k: fill(y) for k, y in x.items()}
+        return x
+    return fill(spec["v"])
+
+
+def _sub_value(rng, cls):
+    base = SUBCLASSES[cls]
+    if cls == "Counter":
+        return {k: rng.pick([1, 2, 3, 70000]) for k in rng.pick(["ACGT", "AC", "a", "xyz"])}
+    if cls == "defaultdict":
+        return {k: [rng.pick(["r1", "r2", 5])] * rng.pick([1, 2]) for k in rng.pick([["reads"], ["a", "b"], ["k k"]])}
+    if base == "dict":
+        j = _o.rnd_json(rng, rng.pick([1, 2, 3]))
+        return j if isinstance(j, dict) and j else rng.pick([{"name": "chr1", "parts": [1, 2, 3]}, {"a": 1}, {"k": None, "l": [1, 2.5]}])
+    if base == "list":
+        return rng.pick([["a", "b"], [1, "a"], [1, 2.5], [[1]], [None], [{"a": 1}, "x"],
+                         [_int_elem(rng) for _ in range(rng.pick([1, 2, 3]))], [rng.pick([0, 1, 200, 255, 256, -1, 70000]) for _ in range(rng.pick([1, 3]))],
+                         [_finite_float(rng) for _ in range(rng.pick([1, 2]))], [1.5, -2.0], [2 ** 32, 1], [-1, 2 ** 31]])
+    if base == "int":
+        e = rng.pick([0, 3, 7, 8, 15, 16, 31, 32, 40, 64])
+        return str(rng.pick([1, -1]) * (2 ** e + rng.pick([-1, 0, 1])))
+    if base == "float":
+        return repr(rng.pick([0.25, 1.5, -2.25, 0.1, 3.0, 1e16, 5e-324, _finite_float(rng)]))
+    return _nice_value(rng, "str")["v"]
+
+
+def gen_obj(rng):
+    """one random case with a value of another class"""
+    if rng.chance(0.5):
+        cls = rng.pick(sorted(SUBCLASSES))
+        spec = {"t": "sub", "cls": cls, "v": _sub_value(rng, cls)}
+        decl = rng.pick([None, None, None] + SUB_DECLS[SUBCLASSES[cls]])
+    else:
+        kind = rng.pick(sorted(JBAD))
+        spec = {"t": "jbad", "elem": kind, "arg": JBAD[kind], "v": rng.pick(JBAD_SHAPES)}
+        decl = rng.pick([None, None, "J"])
+    return {"obj": spec, "decl": decl, "how": rng.pick(["set", "attr"]), "tag": rng.pick(_o.TAGNAMES), "when": rng.pick(["before", "after"])}
+
+
+def _fixed_objs():
+    out = []
+    reps = {"OrderedDict": [{"name": "chr1", "parts": [1, 2, 3]}, {"z": 1, "a": [None, True, 2.5]}],
+            "defaultdict": [{"reads": ["r1"]}], "Counter": [{"A": 2, "C": 2, "G": 1, "T": 1}], "DictSub": [{"a": 1}, {"k": {"l": []}}],
+            "ListSub": [["a", "b"], [1, "a", 2.5], [1, 2, 300], [1.5, -2.0], [-1, 255], [1, 2.5], [2 ** 32, -1]],
+            "IntSub": ["7", "-129", str(2 ** 40)], "IntEnum": ["7", "0", "-3"], "FloatSub": ["0.25", "-1e-07", "1e+16"], "StrSub": ["hello world", "a"]}
+    n = 0
+    for cls in sorted(reps):
+        for v in reps[cls]:
+            for decl in [None] + SUB_DECLS[SUBCLASSES[cls]]:
+                for how in ("set", "attr"):
+                    n += 1
+                    out.append({"obj": {"t": "sub", "cls": cls, "v": v}, "decl": decl, "how": how, "tag": _o.TAGNAMES[n % 4],
+                                "when": ["before", "after"][(n // 2) % 2]})
+    for kind in sorted(JBAD):
+        for shape in JBAD_SHAPES:
+            n += 1
+            out.append({"obj": {"t": "jbad", "elem": kind, "arg": JBAD[kind], "v": shape}, "decl": [None, "J", None][n % 3], "how": ["set", "attr"][n % 2],
+                        "tag": _o.TAGNAMES[n % 4], "when": ["before", "after"][(n // 2) % 2]})
+    return out
+
+
+OBJ_FIXED = _fixed_objs()
+
+
+def obj_plan(case):
+    """-> None (nothing to judge) | (value, datatype, 'rep'|'unrep', label, datatype before a later declaration)"""
+    gfapy = lib.import_gfapy()
+    spec, decl = case["obj"], case["decl"]
+    if spec["t"] == "sub":
+        try:
+            v = build_sub(spec)
+        except gfapy.Error:
+            return None
+        base = sub_base_spec(spec)
+        d0 = _o.default_datatype(base, v)
+        dt = decl or d0
+        if dt is None:
+            return None
+        rep = _o.representable(dt, base, v)
+        if rep is None:
+            return None
+        if decl and case["when"] == "after" and (d0 is None or _o.representable(d0, base, v) is not True):
+            return None          # stored under the default datatype of its class first: only judged when that is possible
+        return v, dt, "rep" if rep else "unrep", "%s.sub-%s" % (dt, spec["cls"]), d0
+    v = build_jbad(spec)
+    # the default datatype of a dict is J, of a list J unless all elements are int or all are float: never the case here
+    return v, "J", "unrep", "J.json-with-%s" % spec["elem"], "J"
+
+
+def run_obj(F, case, ver, base, vlevel):
+    gfapy = lib.import_gfapy()
+    pl = obj_plan(case)
+    if pl is None:
+        return
+    v, dt, verdict, lab, _ = pl
+    tag, decl, how, when = case["tag"], case["decl"], case["how"], case["when"]
+    spec = case["obj"]
+    shown = "%s(%r)" % (spec["cls"], spec["v"]) if spec["t"] == "sub" else "%r with $ = %s" % (spec["v"], spec["elem"])
+    where = "%s vlevel=%d tag=%s decl=%s%s %s value=%s" % (base.split("\t")[0], vlevel, tag, decl, ("/" + when) if decl else "", how, shown[:120])
+
+    def fail(sig, msg):
+        F.append("%s[%s]: %s: %s" % (sig, lab, where, msg))
+
+    line = gfapy.Line(base, vlevel=vlevel, version=ver)
+    refused = False
+    try:
+        if decl and when == "before":
+            line.set_datatype(tag, decl)
+        if how == "set":
+            line.set(tag, v)
+        else:
+            setattr(line, tag, v)
+        if decl and when == "after":
+            line.set_datatype(tag, decl)
+    except gfapy.Error as e:
+        refused = e.__class__.__name__
+    except Exception as e:
+        fail("foreign-exception", "assignment raised %s@%s" % (e.__class__.__name__, M.innermost_gfapy_frame(e)))
+        return
+    if verdict == "rep":
+        if refused:
+            fail("representable-refused", "assignment raised %s" % refused)
+            return
+        judge_rep(fail, line, tag, dt, v, ver)
+    elif not refused:
+        judge_unrep(fail, line, tag, dt, vlevel)
 
 
 def _fixed_sequences():
@@ -288,14 +550,16 @@ SEQ_FIXED = _fixed_sequences()
 
 
 def n_exhaustive(tier):
-    return _o.n_exhaustive(tier) + len(SEQ_FIXED)
+    return _o.n_exhaustive(tier) + len(SEQ_FIXED) + len(OBJ_FIXED)
 
 
 def exhaustive_case(i, tier):
     n0 = _o.n_exhaustive(tier)
     if i < n0:
         return _o.exhaustive_case(i, tier)
-    return SEQ_FIXED[i - n0]
+    if i < n0 + len(SEQ_FIXED):
+        return SEQ_FIXED[i - n0]
+    return OBJ_FIXED[i - n0 - len(SEQ_FIXED)]
 
 
 # ---------------------------------------------------------------------------------------------------- model of a sequence
@@ -699,12 +963,17 @@ def run_seq(F, case, ver, base, vlevel):
 
 # ---------------------------------------------------------------------------------------------------- oracle
 def oracle(case):
-    if "seq" not in case:
+    if "seq" not in case and "obj" not in case:
         return _o.oracle(case)
     F = []
-    ver, base = _o.CTX[case.get("rec", 0) % len(_o.CTX)]
-    for vlevel in (0, 1, 2, 3):
-        run_seq(F, case, ver, base, vlevel)
+    if "obj" in case:
+        for ver, base in _o.CTX:
+            for vlevel in (0, 1, 2, 3):
+                run_obj(F, case, ver, base, vlevel)
+    else:
+        ver, base = _o.CTX[case.get("rec", 0) % len(_o.CTX)]
+        for vlevel in (0, 1, 2, 3):
+            run_seq(F, case, ver, base, vlevel)
     seen = set(); out = []
     for f in F:
         s = signature(case, f)
@@ -714,6 +983,9 @@ def oracle(case):
 
 
 def classify(case):
+    if "obj" in case:
+        pl = obj_plan(case)
+        return "skip" if pl is None else pl[2]
     if "seq" not in case:
         return _o.classify(case)
     _, steps = plan(case)
@@ -728,6 +1000,10 @@ def nontrivial(case):
 
 
 def tags(case):
+    if "obj" in case:
+        spec = case["obj"]
+        return ["obj", "obj-" + classify(case), "decl=%s" % case["decl"], case["how"],
+                "t=sub-" + spec["cls"] if spec["t"] == "sub" else "t=json-with-" + spec["elem"]]
     if "seq" not in case:
         return _o.tags(case)
     _, steps = plan(case)
